@@ -202,6 +202,8 @@ def run(ctx):
                                            observed=got, expected=c["expect"][ri], what=c.get("what", "")))
             if judge and encode(req, got) != cenc[ci][ri]:
                 corpus_fail += 1
+                if corpus_fail > 3:
+                    continue
                 ctx.violation(dict(kind="correspondence", property="C14", corpus=c["file"], text=c["text"], request=list(req),
                                    server=encode(req, got), model=cenc[ci][ri]), no_input=True)
 
@@ -264,13 +266,13 @@ def run(ctx):
     oracle_fail.sort(key=lambda f: len(cases[f[0]].text))
     seen_cls = set()
     for ci, ri, cls, err, o in oracle_fail:
-        if (cls, err.split(",")[0][:25]) in seen_cls or violations >= 4:
+        if (cls, err[:16]) in seen_cls or violations >= 4:
             continue
         case, p = cases[ci], plans[ci][ri]
         if cls == "crash" and not H.confirm_mute(exe, case.text, p[:3]):
             hist["unconfirmed-mute"] += 1
             continue
-        seen_cls.add((cls, err.split(",")[0][:25]))
+        seen_cls.add((cls, err[:16]))
         violations += 1
         extra = {}
         if o is not None:
@@ -325,7 +327,7 @@ def run(ctx):
     kfail, nk = [], 0
     if judge:
         kc = []
-        for _ in range(400 if ctx.thorough() else 120):
+        for _ in range(900 if ctx.thorough() else 300):
             case = H.Case(splgen.well_typed_program(rng, ndecls=1)[0], rng, newline=rng.choice(["\n", "\r\n"]), p_doc=0.8)
             if len(case.text) > 220:
                 continue
@@ -376,8 +378,10 @@ def run(ctx):
         "distinct_nontrivial": len(nontrivial),
         "rule": "well-typed programs (splgen) in random layouts (doc comments in front of declarations / parameters / variable "
                 "declarations, comments inside argument lists, CRLF, dense): hover at every column of every identifier occurrence, one "
-                "position per other token and comment, gaps, line ends, overshooting columns and lines; signatureHelp at every position of "
-                "every argument list, on the rest of every call statement and at random positions. Expected answers from splscope "
+                "position per sampled other token and comment, gaps, line ends, overshooting columns and lines; signatureHelp at every position of "
+                "every argument list up to 50 characters (longer ones: both ends of every token and comment inside, around every comma, 15 "
+                "random positions), on the rest of every call statement (callee name, after `)`, in front of the statement: answer "
+                "optional there, but if given it must be the callee's) and at random positions (outside every call statement: null). Expected answers from splscope "
                 "(bindings, resolved types) and the rendered layout (ranges, doc comments). non-trivial = distinct (document, position) "
                 "on a bound identifier (hover) or strictly inside an argument list (signatureHelp). Malformed stream: damaged programs, "
                 "token soup, random unicode at random positions - model must predict the answer or the panic.",
